@@ -365,6 +365,88 @@ class Context:
                 hits.append("%s: %s" % (rel, m.group(0)))
         return hits
 
+
+    # -- own parallel Coq builder (coqdep + coqc, per-file locks) ----------
+    COQ_WARN = "-notation-overridden,-inexact-float,-deprecated,-extraction"
+
+    def _coq_files(self):
+        files = []
+        for root, _, names in os.walk(COQDIR):
+            for n in names:
+                if n.endswith(".v") and not n.startswith("."):
+                    rel = os.path.relpath(os.path.join(root, n), COQDIR)
+                    if not rel.startswith("scratch"):
+                        files.append(rel)
+        return sorted(files)
+
+    def _coq_depgraph(self):
+        files = self._coq_files()
+        rc, out = sh(["coqdep", "-Q", ".", "Celer"] + files, cwd=COQDIR)
+        deps = {}
+        for line in out.splitlines():
+            if ":" not in line or line.startswith("***") or line.startswith("Warning"):
+                continue
+            lhs, rhs = line.split(":", 1)
+            tg = [t for t in lhs.split() if t.endswith(".vo")]
+            if not tg:
+                continue
+            ds = [d for d in rhs.split() if d.endswith(".vo") and not d.startswith("/")]
+            deps[os.path.normpath(tg[0])] = [os.path.normpath(d) for d in ds]
+        return deps
+
+    def coq_make(self, targets, timeout=1500, force=()):
+        """Build .vo targets (paths relative to coq/) and their dependencies in
+        parallel. Safe to run concurrently from several processes (per-file
+        flock). Returns (ok, {vo: output}, failed list)."""
+        import fcntl
+        from concurrent.futures import ThreadPoolExecutor
+        deps = self._coq_depgraph()
+        need = []
+        def visit(t):
+            if t in need:
+                return
+            for d in deps.get(t, []):
+                visit(d)
+            need.append(t)
+        for t in targets:
+            t = os.path.normpath(t)
+            if t not in deps:
+                return False, {t: "no such Coq target: " + t}, [t]
+            visit(t)
+        outputs, failed, done = {}, [], {}
+        deadline = time.time() + timeout
+
+        def build_one(t):
+            for d in deps.get(t, []):
+                if d in need and not done[d].result():
+                    return False
+            src = os.path.join(COQDIR, t[:-1])
+            vo = os.path.join(COQDIR, t)
+            with open(vo + ".lock", "w") as lf:
+                fcntl.flock(lf, fcntl.LOCK_EX)
+                fresh = os.path.exists(vo) and os.path.getmtime(vo) >= os.path.getmtime(src) and all(
+                    os.path.exists(os.path.join(COQDIR, d)) and
+                    os.path.getmtime(vo) >= os.path.getmtime(os.path.join(COQDIR, d)) for d in deps.get(t, []))
+                if fresh and t not in force:
+                    return True
+                left = max(5, int(deadline - time.time()))
+                rc, out = sh(["timeout", str(left), "coqc", "-w", self.COQ_WARN, "-Q", ".", "Celer", t[:-1]], cwd=COQDIR)
+                outputs[t] = out
+                if rc != 0:
+                    try:
+                        os.remove(vo)
+                    except OSError:
+                        pass
+                    failed.append(t)
+                    return False
+                return True
+
+        with ThreadPoolExecutor(max_workers=NCPU) as ex:
+            for t in need:   # topological order: deps submitted first
+                done[t] = ex.submit(build_one, t)
+            ok = all(f.result() for f in done.values())
+        return ok, outputs, failed
+
     def coq_deps(self, target_v):
         """Transitive project-local dependencies (relative .v paths) of a file."""
         seen = []
@@ -395,23 +477,19 @@ class Context:
         thms = re.findall(r"^\s*(?:Theorem|Corollary)\s+([A-Za-z_][\w']*)", src_nc, flags=re.M)
         self.obligations += thms
         target = props_file[:-2] + ".vo"
-        cmd = "timeout %d make -k -j%d %s" % (timeout, NCPU, shlex.quote(target))
-        self.checker_cmds.append("cd /verif/coq && coq_makefile -f _CoqProject -o Makefile && " + cmd)
+        self.checker_cmds.append("cd /verif/coq && coq_makefile -f _CoqProject -o Makefile && make -j16 %s  (run by tools/vlib.py coq_make: same coqc commands, per-file locks)" % target)
         t = time.time()
-        # force re-check of the property file itself so Print Assumptions is seen
-        try:
-            os.remove(os.path.join(COQDIR, target))
-        except OSError:
-            pass
-        rc, out = sh(cmd, cwd=COQDIR, timeout=timeout + 30)
+        ok_, outs, failed = self.coq_make([target], timeout=timeout, force=(target,))
+        rc = 0 if ok_ else 1
+        out = "\n".join("### %s\n%s" % (k, v) for k, v in outs.items() if k != target) + "\n### %s\n%s" % (target, outs.get(target, ""))
         with open(os.path.join(self.work, "coq_build.log"), "w") as f:
             f.write(out)
-        self.log("coq build of %s: rc=%d in %.1fs" % (props_file, rc, time.time() - t))
+        self.log("coq build of %s: ok=%s in %.1fs%s" % (props_file, ok_, time.time() - t, (" FAILED: %s" % failed) if failed else ""))
         deps = self.coq_deps(props_file)
         forb = self.scan_forbidden(deps)
         ok = rc == 0 and os.path.exists(os.path.join(COQDIR, target)) and not forb
         # axioms: parse Print Assumptions blocks in order
-        blocks = self._assumption_blocks(out)
+        blocks = self._assumption_blocks(outs.get(target, ""))
         pa = re.findall(r"Print\s+Assumptions\s+([A-Za-z_][\w']*)", src_nc)
         for name, blk in zip(pa, blocks):
             self.axioms[name] = blk
@@ -421,7 +499,7 @@ class Context:
                 self.notes.append("theorems without Print Assumptions: %s" % missing)
             self.discharged += thms
         else:
-            failing = re.findall(r'File "\./([^"]+)", line (\d+)', out)
+            failing = re.findall(r'File "\./([^"]+)", line (\d+)', out) + [(f_, "?") for f_ in failed]
             detail = {"target": target, "rc": rc, "forbidden": forb,
                       "errors": failing[:5], "log_tail": out[-3000:]}
             self.broken_proof = detail
@@ -441,11 +519,11 @@ class Context:
                 cur = []
                 blocks.append(cur)
             elif cur is not None:
-                if line.startswith((" ", "\t")) or re.match(r"^[A-Za-z_][\w.']*\s*:", line):
-                    if re.match(r"^[A-Za-z_][\w.']*\s*:", line):
-                        cur.append(line.strip())
-                    elif cur:
+                if line.startswith((" ", "\t")):
+                    if cur:
                         cur[-1] += " " + line.strip()
+                elif re.match(r"^[A-Za-z_][\w.']*\s*(:|$)", line):
+                    cur.append(line.strip())
                 else:
                     cur = None
         return blocks
@@ -489,12 +567,11 @@ class Context:
         return results
 
     def coq_build(self, targets, timeout=1500):
-        self.coq_makefile()
-        cmd = "timeout %d make -k -j%d %s" % (timeout, NCPU, " ".join(shlex.quote(t) for t in targets))
-        rc, out = sh(cmd, cwd=COQDIR, timeout=timeout + 30)
+        ok, outs, failed = self.coq_make(list(targets), timeout=timeout)
+        out = "\n".join("### %s\n%s" % kv for kv in outs.items())
         with open(os.path.join(self.work, "coq_build_model.log"), "w") as f:
             f.write(out)
-        return rc == 0, out
+        return ok, out
 
     def ocaml_extract(self, extract_v, driver_ml, exe, modname):
         """Run coq/<extract_v> (which does `Extraction "<modname>.ml" ...` into cwd)
@@ -588,7 +665,8 @@ class Context:
         cov = dict(self.coverage)
         ax = sorted({a for v in self.axioms.values() for a in v})
         tb = ["Coq 8.16.1 kernel + vm_compute (no native_compute)"]
-        tb += ["axiom (Print Assumptions): " + a for a in ax]
+        prim = re.compile(r"^(PrimInt63\.|PrimFloat\.|Uint63\.|float\b|(add|sub|mul|div|opp|abs|sqrt|eqb|ltb|leb|compare|classify|of_uint63|normfr_mantissa|frshiftexp|ldshiftexp|next_up|next_down)\s*:)")
+        tb += [("kernel primitive (Print Assumptions, not an axiom): " if prim.match(a) else "axiom (Print Assumptions): ") + a for a in ax]
         tb += self.trusted
         nobl = len(self.obligations)
         cov.update({
